@@ -525,7 +525,7 @@ impl TaskEmitter {
         let mut guard = self.events.lock().await;
         guard.push(event.clone());
         #[cfg(feature = "verif")]
-        rip_kernel::verif::yield_async("task_emit:after_publish").await;
+        rip_kernel::verif::yield_async("task_emit:between_record_and_publish").await;
         let _ = self.sender.send(event.clone());
         let _ = self.event_log.append(&event);
     }
